@@ -59,8 +59,11 @@ def ev(x):
     raise ValueError("ev %r" % (x,))
 
 
+BIG = {"big": 5000, "big1": 4999, "mid": 4000}     # as in ocaml/driver.ml
+
+
 def nat(a):
-    return "%s%%nat" % a
+    return "%s%%nat" % BIG.get(a, a)
 
 
 def nn(a):
